@@ -9,6 +9,14 @@ claimed = {
    text="Seeded simulation of SM3 hash-object histories (simulator-chosen Write splits, Sum, Sum-append, Reset, state export, crash-and-restore from the last exported state, fork) and of the SM3 KDF (every len(z) mod 64 x block-count class, prefix clause, kdf.Kdf optimised and marshal paths) against an independent SM3 model, on five dispatch tiers (avx2, avx, sse, scalar asm, purego) with per-run cross-tier trace equality. Sampling, not proof.",
    note="Trusted: the harness SM3 model (checked against GB/T 32905 vectors at every worker start), Go 1.26.8 toolchain, GODEBUG=cpu.* tier selection of the vendored cpu package. Only x86-64 tiers.",
    technique="deterministic simulation: seeded operation/crash histories on a hash object vs reference model, multi-configuration nodes, ddmin replay"),
+ "C19": dict(cat="exploration", design="DESIGN.md section 6 (C19)",
+   text="Seeded simulation of histories on one long-lived MAC object for all eight GB/T 15852.1 constructions over SM4, AES and DES/3DES: several messages in sequence, caller slices with spare capacity, and for CMAC simulator-chosen Write splits, Sum interleavings, reset and abandon-and-reuse; every tag is compared with independent models (truncation and exact length included), the caller's bytes are canary-checked, and full-size tags of messages differing in one bit of the last block must not collide. Three nodes (asm SM4, generic SM4, purego) with cross-node trace equality. Sampling, not proof.",
+   note="Trusted: harness/model/macm (anchored on RFC 4493, SP 800-38B TDEA, GB/T 15852.1 appendix vectors at worker start), model SM4, Go's crypto/aes and crypto/des as block ciphers on both sides. LMAC only with key length = block length; CBCR on the empty message only for history independence (unsettled offline). Known finding cbcr-left-shift is reported, not repaired.",
+   technique="deterministic simulation: seeded object-reuse/streaming histories on MAC objects vs reference models, multi-configuration nodes, ddmin replay"),
+ "C20": dict(cat="exploration", design="DESIGN.md section 6 (C20)",
+   text="Seeded schedules of 2-6 real goroutines on freshly created shared SM2/ECDH/SM9 keys, SM4 block and GCM AEAD objects and lazily parsed certificate pools: a baton scheduler releases exactly one parked goroutine per step (the program is the schedule), its hand-off is invisible to the Go race detector, which therefore reports every pair of conflicting accesses the library itself does not order, deterministically; every concurrent result is compared with the same call executed sequentially on private fresh objects. Sampling of schedules, not proof.",
+   note="Interleaving granularity is one library operation (no two tasks are inside the library at once); assembly-only accesses are invisible to the race detector; package-level singletons are raced only in the first run of each (short-lived) worker process. Trusted: Go race detector, go1.26.8.",
+   technique="deterministic simulation: seeded cooperative scheduler over real goroutines + race detector as happens-before monitor + sequential-equivalence oracle"),
 }
 
 not_applicable = {
